@@ -105,6 +105,12 @@ def exc_obs(e, with_attrs=True):
     """Canonical observation of an exception raised by the implementation."""
     name = type(e).__name__
     tag = EXC_TAGS.get(name)
+    # Part of what a caller observes is WHICH handlers catch the exception. The library's exception classes are
+    # pairwise unrelated (each derives from Exception directly); one that has become a subclass of another would be
+    # caught by the other's handler, so it is reported as a different observation.
+    also = [c.__name__ for c in type(e).__mro__[1:] if getattr(c, "__module__", "") == "trie.exceptions"]
+    if also and getattr(type(e), "__module__", "") == "trie.exceptions":
+        return Exc(99, [(name + "<:" + ",".join(also)).encode()])
     if tag is None:
         # unknown class: bare Exception -> 18; anything else keeps its name visible
         tag = 18 if type(e) is Exception else 99
@@ -378,12 +384,38 @@ def intern_literals(text):
     return defs, body
 
 
+class _CountingList(list):
+    """Reporter.spec_violations: counts concrete violations so that eval_cases can stop early (see there)."""
+    def append(self, x):
+        global SPEC_VIOLATIONS_SO_FAR
+        SPEC_VIOLATIONS_SO_FAR += 1
+        list.append(self, x)
+
+
+SPEC_VIOLATIONS_SO_FAR = 0
+MAX_TERM_BYTES = 4_000_000     # largest single case term on the unchanged tree is < 0.1 MB
+
+
+def enough_violations():
+    """True once the run already holds several concrete failing inputs: the verdict (VIOLATION with a replay) is settled
+    and further generation / model evaluation would only cost time (a defect that makes outputs grow without bound
+    otherwise turns a 30 s check into an hour)."""
+    return SPEC_VIOLATIONS_SO_FAR >= 3
+
+
 def eval_cases(prop, name, imports, run_fn, case_type, cases, shard=200, timeout=1500, extra_defs=""):
     """cases: list of Gallina terms of type (case_type * obs). Evaluates
     `mismatches run_fn cases` shard by shard under vm_compute.
     Returns (mismatch_indices, errors[list of str], n_shards)."""
     if os.environ.get("VERIF_DEV_ORACLE_ONLY"):      # development only (mutation sweeps): skip the model evaluation
         return [], [], 0
+    if enough_violations():
+        return [], [], 0
+    big = [i for i, c in enumerate(cases) if len(c) > MAX_TERM_BYTES]
+    if big:
+        # observations far larger than anything the model produces: a correspondence failure, reported without
+        # asking Coq to parse hundreds of megabytes
+        return big, [f"{name}: {len(big)} case term(s) larger than {MAX_TERM_BYTES} bytes were not evaluated"], 1
     d = os.path.join(BUILD, prop, name)
     shutil.rmtree(d, ignore_errors=True)
     os.makedirs(d)
@@ -512,7 +544,7 @@ class Reporter:
     def __init__(self, prop, tier, seed):
         self.prop, self.tier, self.seed = prop, tier, seed
         self.t0 = time.time()
-        self.spec_violations = []      # (what, case) concrete failing inputs
+        self.spec_violations = _CountingList()      # (what, case) concrete failing inputs
         self.corr_mismatches = []      # (what, case, extra)
         self.gate = None
         self.coq_errors = []
